@@ -129,9 +129,11 @@ class PackCommitBuilder(VersionedFileCommitBuilder):
             lossy=lossy,
             owns_transaction=owns_transaction,
         )
-        self._file_graph = _vcsgraph.Graph(
-            repository._pack_collection.text_index.combined_index
-        )
+        # Use repository.texts rather than the pack collection's own text
+        # index: in a stacked repository the per-file parents may only be
+        # present in a fallback repository, and keys that cannot be found
+        # would all be reported as heads.
+        self._file_graph = _vcsgraph.Graph(repository.texts)
 
     def _heads(self, file_id, revision_ids):
         keys = [(file_id, revision_id) for revision_id in revision_ids]
